@@ -404,6 +404,28 @@ def run(ctx):
                 i = int(bad[0])
                 viol("N3", "unitarity:j2=%d" % j2, {"alpha": al[i], "beta": be[i], "gamma": ga[i], "max_abs_err": float(errU[i])})
             nN += 2 * be.size
+            if lo == 0:
+                # get_D_matrix_lambda = D*_{la, lb-lc}(alpha,beta,gamma) or 0, reference from the TLC weights
+                jb2 = 2 if j2 % 2 == 0 else 1
+                la = tuple(spin(x) for x in range(-j2, j2 + 1, 2))
+                lb = tuple(spin(x) for x in range(-jb2, jb2 + 1, 2))
+                for lc in ((0,), None, (1, -1, 0)):
+                    angd = {"alpha": tf.constant(al), "beta": tf.constant(be), "gamma": tf.constant(ga)}
+                    gotl = np.asarray(dfun.get_D_matrix_lambda(angd, spin(j2), la, lb, lc) if lc is not None
+                                      else dfun.get_D_matrix_lambda(angd, spin(j2), la, lb))
+                    Dcr = np.conj(D_ref(al, be, ga, j2))
+                    lcc = (0,) if lc is None else lc
+                    want = np.zeros((be.size, len(la), len(lb), len(lcc)), dtype=complex)
+                    for ib, hb in enumerate(lb):
+                        for ic, hc in enumerate(lcc):
+                            dl2 = int(round(2 * (hb - hc)))
+                            if abs(dl2) <= j2:
+                                want[:, :, ib, ic] = Dcr[:, :, (dl2 + j2) // 2]
+                    if lc is None:
+                        want = want[..., 0]
+                    if gotl.shape != want.shape or not (np.abs(gotl - want).max() <= 1e-10):
+                        viol("N2", "get_D_matrix_lambda:j2=%d:lc=%s" % (j2, lc), {"shape": list(gotl.shape), "expected_shape": list(want.shape)})
+                    nN += be.size
             # N4 group law with Euler angles of the product from SU2M
             be2 = rng.uniform(0, np.pi, be.size)
             if lo == 0:
